@@ -35,6 +35,21 @@
 (*   MaskByPosition    VerifyMultiSignature marks used keys by position    *)
 (*   RawScriptFallback GetSignatureAddresses hashes the raw script instead *)
 (*                     of deriving the address from the parsed keys        *)
+(* Model self-test switch (never observed in the repository; TRUE must     *)
+(* make TLC refute SameSigners / SignersAreScriptAccounts on the input     *)
+(* class "surplus signatures", see SigTx_C17_selftest.cfg):                *)
+(*   AddrBySigCount    the validator derives the multi-signature account   *)
+(*                     from the NUMBER OF SIGNATURES SUPPLIED instead of   *)
+(*                     the threshold m of the script                       *)
+(*                                                                         *)
+(* Three derivations of "the account of a signature set" are kept apart,   *)
+(* as they are three pieces of code / specification:                       *)
+(*   ScriptAccount  (ghost) the account the verification script stands for *)
+(*   ValidatorAddr  checkTransactionSignatures -> tx.SignedAddr            *)
+(*   DecodedAddr    RawSig.signerAddress on a node that only decoded bytes *)
+(* Input classes beyond the honest ones: surplus signatures (more than m   *)
+(* signatures supplied, only the first m are examined) and malformed       *)
+(* signature blobs (SigBase!Malformed).                                    *)
 (***************************************************************************)
 EXTENDS SigBase
 
@@ -44,8 +59,9 @@ CONSTANTS TxSpace,            \* the transactions the environment may submit
           RawScriptFallback,
           MutClasses,         \* subset of {"content", "sig", "payer"}
           PreOps,             \* subset of {"query", "reverify"}: operations on the object before (re-)verification
-          SkipIfSignedAddr    \* named deviation (FALSE = the code): the validator treats a non-empty SignedAddr as
+          SkipIfSignedAddr,   \* named deviation (FALSE = the code): the validator treats a non-empty SignedAddr as
                               \* "already verified" and accepts without looking at the signatures
+          AddrBySigCount      \* model self-test switch (FALSE = the code), see the header
 
 VARIABLES tx,        \* the transaction under consideration
           phase,     \* "idle" | "submitted" | "verified" | "executed"
@@ -76,11 +92,33 @@ ScriptOf(s) ==
 (* TLC parses every script once per transaction                                                            *)
 SetFail == [ok |-> FALSE, addr |-> NoAddr]
 
-\* the address the validator derives for a parsed set (also used for the payer descriptor "set i")
-ParsedAddr(p) ==
+\* (ghost) the account a parsed verification script stands for: the single key's account, or the account of the
+\* m-of-n script over the parsed keys with the script's OWN threshold m (also the payer descriptor "set i")
+ScriptAccount(p) ==
     IF ~p.ok THEN NoAddr
     ELSE IF Len(p.keys) = 1 THEN AddrOfKey(p.keys[1].v, IsEth(p.keys[1].v))
     ELSE AddrOfMulti(KeyVals(p.keys), p.m)
+
+\* checkTransactionSignatures: the address recorded in tx.SignedAddr for a set that verified
+\* (types.AddressFromPubKey / types.AddressFromMultiPubKeys(sig.PubKeys, m); an error of the latter rejects)
+ValidatorAddr(s, p) ==
+    IF ~p.ok THEN NoAddr
+    ELSE IF Len(p.keys) = 1 THEN AddrOfKey(p.keys[1].v, IsEth(p.keys[1].v))
+    ELSE AddrOfMulti(KeyVals(p.keys), IF AddrBySigCount THEN Len(s.sigs) ELSE p.m)
+
+\* RawSig.signerAddress on a freshly decoded transaction (nobody ran the validator on that object): from the parsed
+\* keys and the script's m; the hash of the raw script if the script does not parse (or with the as-found fallback)
+DecodedAddr(s, p) ==
+    IF RawScriptFallback \/ ~p.ok THEN HashAddr(ScriptOf(s))
+    ELSE IF Len(p.keys) = 1 THEN AddrOfKey(p.keys[1].v, IsEth(p.keys[1].v))
+    ELSE LET a == AddrOfMulti(KeyVals(p.keys), p.m) IN IF a = NoAddr THEN HashAddr(ScriptOf(s)) ELSE a
+
+\* a malformed blob is among the signatures the validator hands to the crypto library for this set: the first one
+\* of a single-key set, the first m of a multi-signature set (surplus signatures are never looked at)
+ExaminesMalformed(s, p) ==
+    /\ p.ok
+    /\ ~(Len(p.keys) > MaxKeysInScript \/ Len(s.sigs) < p.m \/ p.m > Len(p.keys) \/ p.m <= 0)
+    /\ \E j \in 1..p.m : IsMalformed(s.sigs[j])
 
 CheckSet(s, p, addr) ==                                            \* p: result of RawSig.GetSig
     IF ~p.ok THEN SetFail
@@ -92,7 +130,7 @@ CheckSet(s, p, addr) ==                                            \* p: result 
     ELSE IF kn = 1
          THEN IF ValidFor(s.sigs[1], p.keys[1].v)                           \* signature.Verify on SigData[0]
               THEN [ok |-> TRUE, addr |-> addr] ELSE SetFail
-         ELSE IF VerifyMulti(KeyVals(p.keys), m, s.sigs, MaskByPosition)
+         ELSE IF VerifyMulti(KeyVals(p.keys), m, s.sigs, MaskByPosition) /\ addr # NoAddr
               THEN [ok |-> TRUE, addr |-> addr] ELSE SetFail
 
 (* the property C16 as stated: what an accepted transaction must satisfy *)
@@ -114,11 +152,15 @@ CanonicalSet(s, p) ==
 \*   dup     = some script lists a key twice (the only shape on which position masking matters)
 \*   exact   = builder shape: every set carries exactly m signatures
 \*   canon   = every script is byte-for-byte what the builders produce (and no single Ethereum-type key)
+\*   accts   = (ghost) the accounts the presented verification scripts stand for
+\*   malex   = the validator hands a malformed signature blob to the crypto library.  The model does not say what
+\*             the library does with it beyond "not valid": returning false and aborting the call (a panic that
+\*             unwinds VerifyTransaction) are both "transaction NOT accepted"; an abort is allowed ONLY on such rows
 Analyze(t) ==
     LET I   == DOMAIN t.sets
         ps  == [i \in I |-> Parse(ScriptOf(t.sets[i]))]
-        ad  == [i \in I |-> ParsedAddr(ps[i])]
-        cs  == [i \in I |-> CheckSet(t.sets[i], ps[i], ad[i])]
+        ad  == [i \in I |-> ScriptAccount(ps[i])]
+        cs  == [i \in I |-> CheckSet(t.sets[i], ps[i], ValidatorAddr(t.sets[i], ps[i]))]
         d   == t.payer
         pay == IF d.kind = "set" THEN (IF d.i \in I THEN ad[d.i] ELSE NoAddr)
                ELSE IF d.kind = "key" THEN AddrOfKey(d.i, IsEth(d.i))
@@ -127,7 +169,9 @@ Analyze(t) ==
                     /\ \A i \in I : cs[i].ok
                     /\ pay # NoAddr /\ pay \in {cs[i].addr : i \in I},
         signers |-> {cs[i].addr : i \in I},
-        raw     |-> IF RawScriptFallback THEN {HashAddr(ScriptOf(t.sets[i])) : i \in I} ELSE {ad[i] : i \in I},
+        raw     |-> {DecodedAddr(t.sets[i], ps[i]) : i \in I},
+        accts   |-> {ad[i] : i \in I},
+        malex   |-> \E i \in I : ExaminesMalformed(t.sets[i], ps[i]),
         txok    |-> /\ Len(t.sets) >= 1 /\ Len(t.sets) <= MaxSigSets
                     /\ \A i \in I : SetOK(t.sets[i], ps[i])
                     /\ pay # NoAddr /\ pay \in {ad[i] : i \in I},
@@ -135,7 +179,8 @@ Analyze(t) ==
         exact   |-> \A i \in I : ps[i].ok /\ Len(t.sets[i].sigs) = ps[i].m,
         canon   |-> \A i \in I : CanonicalSet(t.sets[i], ps[i])]
 
-NoFacts == [accept |-> FALSE, signers |-> {}, raw |-> {}, txok |-> FALSE, dup |-> FALSE, exact |-> FALSE, canon |-> FALSE]
+NoFacts == [accept |-> FALSE, signers |-> {}, raw |-> {}, accts |-> {}, malex |-> FALSE, txok |-> FALSE, dup |-> FALSE,
+            exact |-> FALSE, canon |-> FALSE]
 
 -----------------------------------------------------------------------------
 Init == /\ tx = NoTx /\ phase = "idle" /\ verdict = FALSE /\ signed = {} /\ raw = {} /\ mutated = "" /\ pre = "fresh" /\ facts = NoFacts
@@ -243,4 +288,9 @@ SameSigners == (phase = "executed") => raw = signed
 SameSignersUpToCanon == (phase = "executed" /\ raw # signed) => ~facts.canon
 \* the converse sanity: honest canonical transactions agree even with the fallback
 CanonAgree == (phase = "executed" /\ facts.canon) => raw = signed
+\* C17, validator side: the signer set an acceptance establishes is exactly the set of accounts the presented
+\* scripts stand for - however many signatures were supplied beyond the threshold
+SignersAreScriptAccounts == (Verified /\ verdict) => signed = facts.accts
+\* C16, malformed signatures: a blob that is not a signature never counts towards an acceptance
+MalformedNeverCounts == (Verified /\ verdict) => ~facts.malex
 =============================================================================
